@@ -381,6 +381,7 @@ func (c *Ctx) TLC(o TLCOpt) (*TLCResult, error) {
 	emit := filepath.Join(dir, "emit.ndjson")
 	args := []string{
 		"-XX:+UseParallelGC", "-Xss512m", "-Dfile.encoding=UTF-8", "-Xmx" + o.Heap, "-Dverif.emit=" + emit, "-Dverif.dir=" + dir,
+		"-Djava.io.tmpdir=" + dir, // TLC leaves a tlc-<n> directory per run in the JVM's temp dir: inside the scratch, removed with it
 		"-cp", tlaJar + ":" + commJar + ":" + overrides, "tlc2.TLC",
 		"-config", o.Spec + ".cfg", "-workers", strconv.Itoa(o.Workers), "-metadir", filepath.Join(dir, "meta"), "-nowarning",
 	}
